@@ -72,8 +72,9 @@ theorem skeleton_independent_of_client_bytes (e1 e2 : Env) (ctx : Ctx) (tmpl : B
   rw [this]
 
 /-- The region excluded above is real: with the error detail text `%M`, the page template `%D` yields the request method
-*without* any transformation (the nested `%M` leaves the raw method in the static `mb`, `%D` emits `mb` with do_quote = 0). -/
-theorem no_raw_client_markup_in_page_counterexample :
+*without* any transformation (the nested `%M` leaves the raw method in the static `mb`, `%D` emits `mb` with do_quote = 0).
+(Stated for the tree as it is: `mb` function-static; with a local buffer the premise is false.) -/
+theorem no_raw_client_markup_in_page_counterexample : Gen.ErrorMacros.staticMb = true →
     (compile 3 (Shape.example [.request, .detail] [37, 77] []) { deny := false, allowRec := true, inSig := false } [37, 68] []).1 =
       [.hole .method [], .hole .method [.html]] := by decide +kernel
 
